@@ -475,6 +475,13 @@ fn inner_tbs(der_bytes: &[u8]) -> Option<&[u8]> {
     Some(&body[..h1 + n1])
 }
 
+thread_local! {
+    /// the octets of the object built by the last operation (for the `bytes` operations: the same object through the
+    /// Lean decoder models)
+    static LAST_DER: std::cell::RefCell<Option<Vec<u8>>> = const { std::cell::RefCell::new(None) };
+}
+fn stash(b: &[u8]) { LAST_DER.with(|l| *l.borrow_mut() = Some(b.to_vec())); }
+
 struct Res {
     der_len: usize,
     /// outer / inner re-encoding equal (None: stage panicked)
@@ -636,6 +643,7 @@ fn op_cert(w: &World, toks: &[&str]) -> R<String> {
     let mut db = D::new();
     dump_cert(&mut db, &built);
     let der_bytes = match stage("encode", || built.to_captured().into_bytes()) { Ok(b) => b, Err(p) => return Ok(early(&mk, &db, p)) };
+    stash(&der_bytes);
     let dec = match stage("decode", || Cert::decode(der_bytes.clone())) {
         Err(p) => return Ok(early(&mk, &db, p)), Ok(Err(_)) => return Ok(early(&mk, &db, "decode-err".into())), Ok(Ok(c)) => c };
     let mut dd = D::new();
@@ -736,6 +744,7 @@ fn op_crl(w: &World, toks: &[&str]) -> R<String> {
     let mut db = D::new();
     dump_crl(&mut db, &built, &queries);
     let der_bytes = match stage("encode", || built.to_captured().into_bytes()) { Ok(b) => b, Err(p) => return Ok(early(&mk, &db, p)) };
+    stash(&der_bytes);
     let dec = match stage("decode", || Crl::decode(der_bytes.clone())) {
         Err(p) => return Ok(early(&mk, &db, p)), Ok(Err(_)) => return Ok(early(&mk, &db, "decode-err".into())), Ok(Ok(c)) => c };
     let mut dd = D::new();
@@ -1144,6 +1153,7 @@ fn op_sigobj(w: &World, ty: &str, toks: &[&str]) -> R<String> {
     let mut db = D::new();
     built.dump(&mut db);
     let der_bytes = match stage("encode", || built.der()) { Ok(b) => b, Err(p) => return Ok(early(&mk, &db, p)) };
+    stash(&der_bytes);
     let dec = match stage("decode", || built.decode(der_bytes.clone())) {
         Err(p) => return Ok(early(&mk, &db, p)), Ok(Err(())) => return Ok(early(&mk, &db, "decode-err".into())), Ok(Ok(o)) => o };
     let mut dd = D::new();
@@ -1237,6 +1247,7 @@ fn op_idcert(w: &World, toks: &[&str]) -> R<String> {
     let mut db = D::new();
     dump_idcert(&mut db, &built);
     let der_bytes = match stage("encode", || built.to_captured().into_bytes()) { Ok(b) => b, Err(p) => return Ok(early(&mk, &db, p)) };
+    stash(&der_bytes);
     let dec = match stage("decode", || IdCert::decode(der_bytes.clone())) {
         Err(p) => return Ok(early(&mk, &db, p)), Ok(Err(_)) => return Ok(early(&mk, &db, "decode-err".into())), Ok(Ok(c)) => c };
     let mut dd = D::new();
@@ -1279,6 +1290,7 @@ fn op_sigmsg(w: &World, toks: &[&str]) -> R<String> {
     let mut db = D::new();
     dump_sigmsg(&mut db, &built);
     let der_bytes = match stage("encode", || built.to_captured().into_bytes()) { Ok(b) => b, Err(p) => return Ok(early(&mk, &db, p)) };
+    stash(&der_bytes);
     let dec = match stage("decode", || SignedMessage::decode(der_bytes.clone(), true)) {
         Err(p) => return Ok(early(&mk, &db, p)), Ok(Err(_)) => return Ok(early(&mk, &db, "decode-err".into())), Ok(Ok(c)) => c };
     let mut dd = D::new();
@@ -1912,6 +1924,9 @@ fn emit(ctx: &mut Ctx, op: &str) {
     // times with a sub-second part (and the default signing time, which is the wall clock) lose it in the encoding
     let subsec = op.contains('.') || op.contains(" st=N");
     ctx.case(&format!("{}{} vexp={} conf={}", op, if subsec { " subsec=1" } else { "" }, vexp, if conf { 1 } else { 0 }));
+    if matches!(op.split(' ').next(), Some("cert" | "crl" | "so" | "mft" | "roa" | "aspa" | "idcert" | "sigmsg")) {
+        ctx.case(&format!("bytes {}", op));
+    }
 }
 
 //------------ content codecs tied to the Lean models (Model/Roa.lean) ---------------------------------------
@@ -2183,6 +2198,22 @@ pub fn exec(toks: &[&str]) -> String {
 fn exec_op(toks: &[&str]) -> String {
     if toks.is_empty() { return "bad-op".into() }
     let w = world();
+    if toks[0] == "bytes" && toks.len() > 1 {
+        // the object the operation builds, through the library decoder and (in the driver) the Lean decoder model
+        LAST_DER.with(|l| *l.borrow_mut() = None);
+        let _ = exec(&toks[1..]);
+        let Some(d) = LAST_DER.with(|l| l.borrow_mut().take()) else { return "nothing-built".into() };
+        let h = hex(&d);
+        let line = match toks[1] {
+            "cert" => crate::certd::exec(&["certd", &h]),
+            "crl" => crate::certd::exec_crl(&["crld", &h]),
+            "so" | "mft" | "roa" | "aspa" => crate::certd::exec_cms(&["cmsd", toks[1], &h]),
+            "idcert" => crate::certd::exec_idc(&["idcd", &h]),
+            "sigmsg" => crate::certd::exec_smsg(&["smsgd", &h]),
+            _ => return "bad-op".into(),
+        };
+        return format!("{} | {}", h, line);
+    }
     let r = match toks[0] {
         "cert" => op_cert(w, &toks[1..]),
         "crl" => op_crl(w, &toks[1..]),
